@@ -729,6 +729,10 @@ func c08DerivedRequest(cs *c08Case, b *c08Built, res *c08Result) string {
 	if cs.Open.SkipIndex {
 		m = "noidx"
 	}
+	if c08HasCopy(cs.Ops) && c08ForwardOnly(cs.Target) {
+		// the models of the forward-only seekers have no bulk copy
+		return ""
+	}
 	switch cs.Target {
 	case "convert":
 		if d.Under != "scripted" {
